@@ -186,6 +186,18 @@ class Program:
             if f.parent_fn:
                 self.closures_of[f.parent_fn].append(f)
 
+    # ---- reference tree ----------------------------------------------------------------
+    _REF = None
+
+    def is_new(self, f):
+        """True for a function that does not exist (by def path) in the reference tree: rules treat such
+        functions as helpers introduced by an edit and look through them (inline) instead of matching them."""
+        if Program._REF is None:
+            ref = os.path.join(extract.VERIF, "rules", "reference_fns.txt")
+            Program._REF = set(l.rstrip("\n") for l in open(ref) if l and not l.startswith("#"))
+        r = f.root_fn()
+        return r.path not in Program._REF
+
     # ---- lookups -------------------------------------------------------------------
     def fn_by_path(self, path):
         """Unique fn with this def path string; fail closed if missing/ambiguous."""
